@@ -3,7 +3,8 @@ GO_PKGNAME = "keyspace"
 HARNESS = ["keyspace/c18_test.go"]
 GO_TEST = "TestVerifC18"
 RUN_MODULE = "Run_C18"
-COQ_TARGETS = ["Corr/Run_C18.vo", "Proofs/KeyspaceProofs.vo"]
+COQ_TARGETS = ["Corr/Run_C18.vo", "Proofs/KeyspaceBase.vo", "Proofs/KeyspaceProofs.vo", "Proofs/KeyspaceAlloc.vo",
+               "Proofs/KeyspaceCovered.vo"]
 # N bounds the number of case indices (replay by index); campaign sizes derive from N/20 (see the harness).
 N = {"quick": 3000, "thorough": 30000}
 GO_TIMEOUT = {"quick": 600, "thorough": 3000}
